@@ -1,0 +1,14 @@
+//go:build verif && go1.7
+
+package logger
+
+import "context"
+
+// VerifCid reads the connection id a context carries (the key is unexported).
+func VerifCid(ctx context.Context) (cid int, ok bool) {
+	if ctx == nil {
+		return 0, false
+	}
+	cid, ok = ctx.Value(cidKey).(int)
+	return
+}
